@@ -142,6 +142,22 @@ var tableKeys = func() []uint32 {
 	for k := range win32.Protections {
 		ks = append(ks, uint32(k))
 	}
+	for k := range agent.InjectErrors {
+		ks = append(ks, uint32(k))
+	}
+	sort.Slice(ks, func(i, j int) bool { return ks[i] < ks[j] })
+	if len(ks) == 0 {
+		ks = []uint32{0}
+	}
+	return ks
+}()
+
+// errorKeys: the (large) Win32 error table, kept apart so that it does not dilute the small tables
+var errorKeys = func() []uint32 {
+	var ks []uint32
+	for k := range agent.Win32ErrorCodes {
+		ks = append(ks, uint32(k))
+	}
 	sort.Slice(ks, func(i, j int) bool { return ks[i] < ks[j] })
 	if len(ks) == 0 {
 		ks = []uint32{0}
@@ -150,7 +166,7 @@ var tableKeys = func() []uint32 {
 }()
 
 func (g *bodyGen) i32() uint32 {
-	return rapid.OneOf(rapid.SampledFrom([]uint32{0, 1, 2, 3, 7, 8, 9, 0x7fffffff, 0x80000000, 0xffffffff, outstanding, agentIDs[0], childID}), rapid.Uint32Range(0, 40), rapid.Uint32(), rapid.SampledFrom(tableKeys)).Draw(g.t, g.label("i"))
+	return rapid.OneOf(rapid.SampledFrom([]uint32{0, 1, 2, 3, 7, 8, 9, 0x7fffffff, 0x80000000, 0xffffffff, outstanding, agentIDs[0], childID}), rapid.Uint32Range(0, 40), rapid.Uint32(), rapid.SampledFrom(tableKeys), rapid.SampledFrom(errorKeys)).Draw(g.t, g.label("i"))
 }
 
 func (g *bodyGen) text() string {
@@ -664,7 +680,7 @@ var _ = bytes.Equal
 func TestC01(t *testing.T) {
 	core.Run(t, core.Spec[Case]{
 		Property: "C01", Sub: "a",
-		Rule: "state (0-3 registered agents incl. id >= 2^31 and a zero-key agent, SMB child, open download, Service block on/off, an outstanding request id on every agent) built through the real endpoints, then 1-4 requests via the HTTP listener engine or the External-C2 handler: A random bytes (all lengths 0-24, up to 300); B batches of 1-3 grammar-valid callbacks drawn from 140 command/sub-command layouts of TaskDispatch, each corrupted by truncation / length-prefix rewrite / appended bytes / bit flip, plus SMB_CONNECT with a (cut / mismatching) child registration, relayed SMB_COMMAND packages, CHECKIN metadata, self-nested pivot packages to depth 400, header corruptions (magic, unknown id, id 0, other key, header command, cut, size); C registrations (valid, truncated, id mismatch, existing id, zero key, trailing bytes). Oracle: no panic, returns within 30 s, status 200/404, all agent mutexes free, traffic classified invalid by the harness gets 404 and leaves sessions/queues/DB/loot identical. Non-trivial: a class B/C request that passes header, magic and session lookup; distinct = (class:first layout, #agents, pivot, service, download, length bucket)",
+		Rule: "state (0-3 registered agents incl. id >= 2^31 and a zero-key agent, SMB child, open download, Service block on/off, an outstanding request id on every agent) built through the real endpoints, then 1-4 requests via the HTTP listener engine or the External-C2 handler: A random bytes (all lengths 0-24, up to 300); B batches of 1-3 grammar-valid callbacks drawn from 140 command/sub-command layouts of TaskDispatch, each corrupted by integer fields also drawn from the keys of the lookup tables TaskDispatch indexes (win32.Protections, InjectErrors, Win32ErrorCodes as found in the tree under test); truncation / length-prefix rewrite / appended bytes / bit flip, plus SMB_CONNECT with a (cut / mismatching) child registration, relayed SMB_COMMAND packages, CHECKIN metadata, self-nested pivot packages to depth 400, header corruptions (magic, unknown id, id 0, other key, header command, cut, size); C registrations (valid, truncated, id mismatch, existing id, zero key, trailing bytes). Oracle: no panic, returns within 30 s, status 200/404, all agent mutexes free, traffic classified invalid by the harness gets 404 and leaves sessions/queues/DB/loot identical. Non-trivial: a class B/C request that passes header, magic and session lookup; distinct = (class:first layout, #agents, pivot, service, download, length bucket)",
 		Gen:   gen, Check: check, Classify: classify,
 		Assumptions: []string{
 			"no third-party agent type is registered in generated states, so every non-Demon magic value is invalid traffic",
